@@ -757,6 +757,29 @@ def _r7(repo: Repo, ctx) -> None:
            f'instead of the full descendant sets: A UNION C with C a '
            f'grandchild of A contains every C twice but is inferred UNIQUE',
            mo.loc, sample=sorted(calls & ({'descendants'} | shallow)))
+    # ---- element-wise application repeats results ------------------------
+    from ..absint import Facts, open_returns
+    mf = repo.func(f'{MULT}.__infer_func_call')
+    g = CFG(mf.node)
+    ew = [t for t in g.nodes if t.kind == 'test' and 'param_typemod' in
+          norm(t.ast) and 'is_multi()' in norm(t.ast)]
+    if not ew:
+        ctx.fail('C06.R7', 'multiplicity:func:elementwise-multi-argument',
+                 'multiplicity.__infer_func_call has no test for a multi '
+                 'non-SET OF argument: a call is applied once per element '
+                 'of such an argument, so assert_exists(1, message := '
+                 '{"a","b"}) yields {1, 1} but is classified by its input '
+                 'alone', mf.loc)
+    else:
+        F = Facts({norm(ew[0].ast): True, 'card.is_single()': False},
+                  mf.node)
+        lv = [norm(x) for r in open_returns(g, F) if r.value is not None
+              for x in F.leaves(r.value)]
+        ctx.ob('C06.R7', 'multiplicity:func:elementwise-multi-argument',
+               bool(lv) and set(lv) <= {'DUPLICATE'},
+               f'with a multi non-SET OF argument a non-single call can '
+               f'still be classified {sorted(set(lv))}', mf.loc,
+               sample=sorted(set(lv)))
     nonobj = [a for a in assigns if norm(a.value) == 'False']
     ctx.ob('C06.R7', 'multiplicity:UNION:scalars-not-disjoint', bool(nonobj),
            'UNION of non-object sets is assumed disjoint', mo.loc,
